@@ -53,6 +53,7 @@ DIRECTED = [
     ("waitany-2", "mbox 1\nactor s0.1 s0.2 a a\nactor r0 r0 c0 c1\n", []),
     ("waitany-test", "mbox 1\nactor s0.1 s0.2 a a\nactor r0 r0 t0 c1\n", [("DFS", 3)]),
     ("test-vs-send", "mbox 1\nactor s0.1 c0\nactor r0 t0\n", []),
+    ("test-both", "mbox 1\nactor s0.1 t0 c0\nactor r0 t0 c0\n", []),
     ("lock-order", "mutex 2\nactor L0 L1 U1 U0\nactor L1 L0 U0 U1\n", []),
     ("independent", "mutex 2\nactor L0 O0 U0\nactor L1 O1 U1\n", [("BeFS", 2)]),
     ("sem-handover", "sem 0 1b\nactor P0 P1 o1 V1\nactor P1 o1 V1 V0\n", []),
